@@ -284,7 +284,10 @@ func runNative(nb *nativeBuild, repoDir string, doc *replayDoc, replayFile strin
 func reproduced(v *Violation, nr *nativeResult) bool {
 	switch v.Kind {
 	case "check":
-		return nr.CheckFailed == v.Label
+		// the same assertion fails natively; or the native run crashes outright (code that the
+		// harness summarises under the engine, e.g. AnalyzeData, may trip over the same
+		// corrupted state first): either way the misbehaviour is real
+		return nr.CheckFailed == v.Label || (nr.Panicked && !nr.TimedOut && nr.CheckFailed == "")
 	case "panic":
 		return nr.Panicked && !nr.TimedOut
 	case "deadlock":
